@@ -350,9 +350,10 @@ func (e *Engine) setupIntrinsics() {
 		return e.opaqueError(st, "fmt.Errorf")
 	}
 	n["fmt.Sprintf"] = func(e *Engine, st *State, fn *ssa.Function, a []Value) Value {
-		format := argStr(a[0])
-		if hv, ok := e.hostArgs(st, a[1]); ok {
-			return concStr(fmt.Sprintf(format, hv...))
+		if format, fok := a[0].(StrV).Concrete(); fok {
+			if hv, ok := e.hostArgs(st, a[1]); ok {
+				return concStr(fmt.Sprintf(format, hv...))
+			}
 		}
 		// messages built from symbolic data (panic and error texts) are opaque
 		e.intrUsed["fmt.Sprintf with symbolic arguments -> opaque text"] = true
@@ -378,8 +379,12 @@ func (e *Engine) setupIntrinsics() {
 			var hv []interface{}
 			switch which {
 			case "Fprintf":
-				if hv, ok = e.hostArgs(st, a[2]); ok {
-					txt = fmt.Sprintf(argStr(a[1]), hv...)
+				// (a format string holding symbolic bytes - data used as a
+				// format - goes to the model as well)
+				if f, fok := a[1].(StrV).Concrete(); fok {
+					if hv, ok = e.hostArgs(st, a[2]); ok {
+						txt = fmt.Sprintf(f, hv...)
+					}
 				}
 			case "Fprint":
 				if hv, ok = e.hostArgs(st, a[1]); ok {
@@ -422,6 +427,8 @@ func (e *Engine) setupIntrinsics() {
 		"os.Open":                          "vpOsOpen",
 		"(*os.File).Read":                  "vpFileRead",
 		"(*os.File).Close":                 "vpFileClose",
+		"compress/gzip.NewReader":          "vpGzipNewReader",
+		"(*compress/gzip.Reader).Read":     "vpGzipRead",
 		"github.com/spaolacci/murmur3.New64WithSeed": "vpNewHash64",
 	}
 }
